@@ -104,3 +104,7 @@ Lemma gen_flat_formats : forall s sg args kw,
   pybrace_parse_gen s = Ok sg -> flat_guard gen_ucd (S (length s)) s = true -> args_match sg args kw ->
   cpy_format re_d_value s args kw = FSuccess.
 Proof. intros s sg args kw. unfold pybrace_parse_gen. exact (flat_formats gen_ucd gen_pybrace_ssize_max gen_ucd_chars gen_ucd_spec s sg args kw). Qed.
+
+Lemma gen_types_inhabited : forall s sg key tp n,
+  pybrace_parse_gen s = Ok sg -> In (key, (tp, n)) (argument_map sg) -> exists v, val_in v tp = true.
+Proof. intros s sg key tp n. unfold pybrace_parse_gen. exact (types_inhabited gen_ucd gen_pybrace_ssize_max s sg key tp n). Qed.
